@@ -108,6 +108,8 @@ func Run(c *vh.Ctx) {
 		c.Res.ModelLines = modelLines(r.m)
 		return
 	}
+	r.knownStream()
+	r.flush()
 	r.bytesCodecs()
 	r.flush()
 	r.wirePrims()
@@ -117,8 +119,6 @@ func Run(c *vh.Ctx) {
 	r.serialize()
 	r.flush()
 	r.jsonLayer()
-	r.flush()
-	r.knownStream()
 	r.flush()
 	c.Res.Exhaustive = true
 	c.Res.ExhaustiveWhat = "all 256 single bytes and all 65536 byte pairs through every byte codec (encoders and decoders), the wire primitives and the wire parser under " + fmt.Sprint(len(pairOpts)) + " option sets"
